@@ -1361,9 +1361,19 @@ def search(ctx, broken):
         A, y, h = _gen_linear(rng, dim)
         An, yn = np.array(A), np.array(y)
         for name, f, deg in (('euler', euler, 1), ('rungekutta', rungekutta, 4)):
-            impl = f(lambda c: An @ c, yn, h)
+            yin = yn.copy()
+            try:
+                impl = f(lambda c: An @ c, yin, h)
+            except Exception as e:  # noqa
+                ctx.violate(f'{name}:raises', f'{name}(A@y, y={y}, h={h}) raised {type(e).__name__}: {e}',
+                            {'op': name, 'A': A, 'y': y, 'h': h})
+                continue
             want = _taylor(A, y, h, deg)
             ctx.stats.case('oracle:' + name, (A, y, h))
+            if not np.array_equal(yin, yn):
+                ctx.violate(f'{name}:mutates-input', f'{name} overwrote the coordinate array it was given: y = {y} became '
+                            f'{yin.tolist()} (A = {A}, h = {h}); a second step from the same y starts from the wrong point',
+                            {'op': name, 'A': A, 'y': y, 'h': h, 'y_after': yin.tolist()})
             if not cm.allclose(impl, want, rtol=1e-9, atol=1e-11):
                 ctx.violate(f'{name}:taylor', f'{name} on y\'=Ay is not the degree-{deg} Taylor polynomial of exp(hA) y: '
                             f'got {list(map(float, impl))}, expected {[float(w) for w in want]}',
@@ -1567,6 +1577,8 @@ def replay(ctx, payload):
         print('replay', op, 'impl', list(map(float, impl)), 'expected', [float(w) for w in want])
         if not cm.allclose(impl, want, rtol=1e-9, atol=1e-11):
             ctx.violate(f'{op}:taylor', 'replayed case still fails', r)
+        if not np.array_equal(yn, np.array(r['y'])):
+            ctx.violate(f'{op}:mutates-input', f'replayed case still overwrites its input: {yn.tolist()}', r)
     elif op == 'path-seq':
         print('replay path operation sequence:', ' > '.join(_brief(o) for o in r['ops']))
         _run_sequence(ctx, r['ops'], 'oracle', 'replay')
